@@ -37,15 +37,23 @@ Definition init : st := {| lp := None; active := true; execs := []; dest := [] |
 (* ---- the record-and-advance protocol as durable micro-steps ------------------------- *)
 
 (* executeAggregation hands the rows to the ingest buffer (MDest); then
-   recordExecutionAndUpdateTime: BEGIN; INSERT execution; UPDATE pointer; COMMIT. *)
-Inductive mstep := MDest (r : row) | MInsert (e : exec) | MPointer (p : Z) | MCommit.
+   recordExecutionAndUpdateTime: BEGIN; INSERT execution; guarded UPDATE of the pointer; COMMIT.
+   The UPDATE (fix 5249f50) is
+     SET last_processed_time = end WHERE id = ? AND (last_processed_time IS NULL
+                                  OR (last_processed_time >= start AND last_processed_time < end))
+   i.e. the pointer advances only when the executed window covers it. *)
+Inductive mstep := MDest (r : row) | MInsert (e : exec) | MPointer (s e : Z) | MCommit.
+
+Definition advances (p : option Z) (s e : Z) : bool :=
+  match p with None => true | Some q => (s <=? q) && (q <? e) end.
 
 Record dstate := { d_st : st; d_tx : list mstep }.     (* committed state, pending transaction *)
 
 Definition apply_tx (s : st) (m : mstep) : st :=
   match m with
   | MInsert e => {| lp := lp s; active := active s; execs := e :: execs s; dest := dest s |}
-  | MPointer p => {| lp := Some p; active := active s; execs := execs s; dest := dest s |}
+  | MPointer ws we => {| lp := if advances (lp s) ws we then Some we else lp s;
+                         active := active s; execs := execs s; dest := dest s |}
   | _ => s
   end.
 
@@ -53,7 +61,7 @@ Definition mapply (d : dstate) (m : mstep) : dstate :=
   match m with
   | MDest r => {| d_st := {| lp := lp (d_st d); active := active (d_st d); execs := execs (d_st d);
                              dest := r :: dest (d_st d) |}; d_tx := d_tx d |}
-  | MInsert _ | MPointer _ => {| d_st := d_st d; d_tx := d_tx d ++ [m] |}
+  | MInsert _ | MPointer _ _ => {| d_st := d_st d; d_tx := d_tx d ++ [m] |}
   | MCommit => {| d_st := fold_left apply_tx (d_tx d) (d_st d); d_tx := [] |}
   end.
 
@@ -63,7 +71,7 @@ Definition recover (d : dstate) : st := d_st d.
 Definition success_steps (sched : bool) (sns ens : Z) : list mstep :=
   [ MDest {| r_t := sns / 1000; r_ws := sns / ns; r_we := ens / ns |};
     MInsert {| e_sched := sched; e_ok := true; e_s := sns / ns; e_e := ens / ns |};
-    MPointer (ens / ns);
+    MPointer (sns / ns) (ens / ns);
     MCommit ].
 
 (* state after the first k micro-steps of a successful run followed by a crash/recovery;
@@ -181,51 +189,47 @@ Fixpoint sortedb (ws : list (Z * Z)) : bool :=
   | (a, b) :: r => (a <=? b) && forallb (fun w => b <=? fst w) r && sortedb r
   end.
 
-(* end of the most recent completed execution of a log given NEWEST FIRST *)
-Fixpoint last_end (log : list exec) : option Z :=
+(* the pointer a log implies (log NEWEST FIRST): replay the guarded UPDATE over the completed
+   executions, oldest to newest *)
+Fixpoint ptr_of (log : list exec) : option Z :=
   match log with
   | [] => None
-  | e :: r => if e_ok e then Some (e_e e) else last_end r
+  | e :: r => let p := ptr_of r in
+              if e_ok e && advances p (e_s e) (e_e e) then Some (e_e e) else p
   end.
 
-(* every completed SCHEDULED execution starts where the previous completed execution (of any
-   kind) ended; log NEWEST FIRST *)
-Fixpoint starts_at_prev (log : list exec) : bool :=
+(* every completed SCHEDULED execution starts at the pointer, i.e. where the previous
+   pointer-advancing execution ended; log NEWEST FIRST *)
+Fixpoint starts_at_ptr (log : list exec) : bool :=
   match log with
   | [] => true
   | e :: r => (if e_ok e && e_sched e
-               then match last_end r with Some p => e_s e =? p | None => true end
-               else true) && starts_at_prev r
+               then match ptr_of r with Some p => e_s e =? p | None => true end
+               else true) && starts_at_ptr r
   end.
 
-(* no gap between successive completed SCHEDULED windows: the range between the end of what is
-   covered so far and the start of the next scheduled window must be covered by the completed
-   manual windows recorded in between.  [extend] pushes the covered frontier f through the
-   windows ws as far as they reach. *)
-Fixpoint extend (fuel : nat) (f : Z) (ws : list (Z * Z)) : Z :=
-  match fuel with
-  | O => f
-  | S k =>
-      let f' := fold_left (fun acc w => if (fst w <=? acc) && (acc <? snd w) then snd w else acc) ws f in
-      if f' =? f then f else extend k f' ws
+(* no gap: [front] is the end of the contiguously covered region that starts with the first
+   completed scheduled window (a completed window that starts inside the covered region extends
+   it); every later scheduled window must start inside it.  log NEWEST FIRST *)
+Fixpoint front (log : list exec) : option Z :=
+  match log with
+  | [] => None
+  | e :: r =>
+      let f := front r in
+      if e_ok e then
+        match f with
+        | None => if e_sched e then Some (e_e e) else None
+        | Some x => if e_s e <=? x then Some (Z.max x (e_e e)) else Some x
+        end
+      else f
   end.
-
-(* log OLDEST FIRST *)
-Fixpoint no_gap_from (front : option Z) (pend : list (Z * Z)) (log : list exec) : bool :=
+Fixpoint gap_free (log : list exec) : bool :=
   match log with
   | [] => true
-  | e :: r =>
-      if e_ok e then
-        if e_sched e then
-          match front with
-          | None => no_gap_from (Some (e_e e)) [] r
-          | Some f => let f' := extend (length pend) f pend in
-                      (e_s e <=? f') && no_gap_from (Some (Z.max f' (e_e e))) [] r
-          end
-        else no_gap_from front ((e_s e, e_e e) :: pend) r
-      else no_gap_from front pend r
+  | e :: r => (if e_ok e && e_sched e
+               then match front r with Some x => e_s e <=? x | None => true end
+               else true) && gap_free r
   end.
-Definition no_gapb (log : list exec) : bool := no_gap_from None [] log.
 
 Definition label_ok (r : row) : bool := (r_t r / 1000000 =? r_ws r) && (r_ws r <=? r_we r).
 
@@ -294,23 +298,33 @@ Fixpoint no_advance_ok (prev : option Z) (outs : list obs_out) : bool :=
   | o :: r => (if N.eqb (oo_code o) 1 then true else opt_eqb prev (oo_lp o)) && no_advance_ok (oo_lp o) r
   end.
 
-(* properties that hold on the observations of EVERY history (C29_history, C29_label,
-   C29_failure_no_advance, C29_atomic_advance): evaluated on the implementation's output *)
+(* the pointer never moves backwards *)
+Fixpoint lp_monotone (prev : option Z) (outs : list obs_out) : bool :=
+  match outs with
+  | [] => true
+  | o :: r => match prev, oo_lp o with
+              | Some a, Some b => a <=? b
+              | Some _, None => false
+              | None, _ => true
+              end && lp_monotone (oo_lp o) r
+  end.
+
+(* the property, evaluated on the implementation's observations of EVERY history
+   (C29_history, C29_label, C29_failure_no_advance, C29_pointer_monotone, C29_sched_disjoint,
+   C29_no_gap): the pointer is what the log implies, every scheduled run starts at it, it never
+   moves backwards, non-completing operations leave it alone, completed scheduled windows do not
+   overlap and leave no gap, rows are labelled with their window start *)
 Definition case_oracle (c : ccase) : bool :=
-  opt_eqb (final_lp c) (last_end (rev (c_execs c))) &&
-  starts_at_prev (rev (c_execs c)) &&
+  opt_eqb (final_lp c) (ptr_of (rev (c_execs c))) &&
+  starts_at_ptr (rev (c_execs c)) &&
   forallb label_ok (c_dest c) &&
-  no_advance_ok None (c_outs c).
+  no_advance_ok None (c_outs c) &&
+  lp_monotone None (c_outs c) &&
+  sortedb (completed_sched (c_execs c)) &&
+  gap_free (rev (c_execs c)).
 
-(* the full-strength window property, evaluated on the implementation's output:
-   all completed windows tile, scheduled windows do not overlap *)
+(* all completed windows tile (holds when no effective manual run names a start) *)
 Definition case_tiles (c : ccase) : bool := chainb (completed (c_execs c)).
-Definition case_sched_disjoint (c : ccase) : bool := sortedb (completed_sched (c_execs c)).
-Definition case_no_gap (c : ccase) : bool := no_gapb (c_execs c).
-
-(* the part of the oracle that does not depend on how manual runs move the pointer *)
-Definition case_oracle_min (c : ccase) : bool :=
-  forallb label_ok (c_dest c) && no_advance_ok None (c_outs c).
 
 (* classes of histories (guards of the positive theorems) *)
 Definition effective_manual (o : op) : bool :=
@@ -337,8 +351,6 @@ Fixpoint nondecrb (l : list Z) : bool :=
   | x :: r => match r with [] => true | y :: _ => x <=? y end && nondecrb r
   end.
 
-(* inside the domain of the guarded theorems the full-strength property must hold on the
-   implementation's output *)
+(* histories in which no effective manual run names a start: all completed windows tile *)
 Definition case_guarded_oracle (c : ccase) : bool :=
-  (if no_explicit_start (c_ops c) then case_tiles c else true) &&
-  (if no_explicit_both (c_ops c) && nondecrb (clocks (c_ops c)) then case_sched_disjoint c else true).
+  if no_explicit_start (c_ops c) then case_tiles c else true.
